@@ -592,6 +592,13 @@ func (r *Run) acquire(st *State, fr *Frame, lr LockRef, mode LockMode, in ssa.In
 	// lock order: every lock already held must rank below the one acquired
 	r.orderCheck(st, fr, lr, in)
 	st.Locks = append(st.Locks, HeldLock{Class: lr.Class, Base: lr.Base, Key: lr.Key, Mode: mode})
+	// waiting for a lock takes time: context checks made before the acquisition are stale (the holder may have
+	// cancelled the context in the meantime)
+	for k := range st.Ghost {
+		if strings.HasPrefix(k, "ctxerr.last:") {
+			delete(st.Ghost, k)
+		}
+	}
 	r.acquireLocal(st, fr, lr)
 	if lr.Class == "" {
 		return
